@@ -79,6 +79,11 @@ def run_one(sid, thorough_budget=180):
         out["demo_patched_exit"] = rc1
         out["caught_by"] = None
         out["runs"] = []
+        if rc1 == 0 and meta.get("superseded_by_fix"):
+            # the demonstration passes with the change applied: a later repair of the repository removed the
+            # condition the change needed, it is behaviour-preserving on the current tree
+            out["caught_by"] = "n/a - no longer a defect (%s)" % meta["superseded_by_fix"]
+            return out
         for prop in props:
             r = _check(root, prop, "quick")
             r["property"] = prop
